@@ -31,13 +31,13 @@ META = {
         "the theorems exclude graphs with a mixed inductive/coinductive cycle (class F27, witness rec_history_mixed_refuted)",
         "SLG history independence is not modelled: tested on generated programs; F7 class is excluded by its input predicate",
     ],
-    "quick_s": 70, "thorough_s": 900,
+    "quick_s": 90, "thorough_s": 900,
 }
 
 
 def engine_part(ctx):
     rng = ctx.rng
-    n = ctx.n(300, 8000)
+    n = ctx.n(300, 2000)
     cases, meta = [], []
     for i in range(n):
         shape, G = E.gen_graph(rng, E.SHAPES[i % len(E.SHAPES)] if i < 4 * len(E.SHAPES) else None)
@@ -69,9 +69,9 @@ def engine_part(ctx):
     real, lines = E.run_real(cases + fresh_cases)
     rh, rf = real[:len(cases)], real[len(cases):]
     # the model is compared on every history and on a sample of the fresh runs
-    nfs = ctx.n(150, 4000)
+    nfs = ctx.n(150, 800)
     bad = set(E.model_mismatches(ctx, "hist", cases + fresh_cases[:nfs], real[:len(cases) + nfs]))
-    semb = E.sem_mismatches(ctx, "sem", [c[0] for c in cases[:ctx.n(100, 2000)]])
+    semb = E.sem_mismatches(ctx, "sem", [c[0] for c in cases[:ctx.n(100, 500)]])
     ctx.cov["engine_model_mismatches"] = len(bad)
     ctx.cov["engine_sem_mismatches"] = len(semb)
     known = viol = incon = 0
@@ -142,11 +142,11 @@ SOLVERS = [("slg", H.SLG), ("rec", H.REC), ("rec-ms5-cache", H.rec_with(100, Tru
 
 def solver_part(ctx):
     rng = ctx.rng
-    progs = H.programs(rng, ctx.n(8, 150), seeded=True)
+    progs = H.programs(rng, ctx.n(8, 40), seeded=True)
     cases, index = [], []
     for pi, (p, text, goals, gts) in enumerate(progs):
         ords = E.orders(rng, list(range(len(gts))), quick=ctx.quick, limit=ctx.n(2, 10))
-        ords = ords[:ctx.n(4, 40)]
+        ords = ords[:ctx.n(4, 12)]
         for sname, solver in SOLVERS:
             for gi, gt in enumerate(gts):
                 index.append(("fresh", pi, sname, gi))
